@@ -224,6 +224,14 @@ def run(ctx, tier):
                     pl = a.get('move') or a.get('copy')
                     idt = fn.place_terms(pl, (bi, fn.nstmts(bi)), mut_kills=False)
                     ok = bool(idt) and all(n[0] == 'param' and n[1] == 2 for n in idt)
+                    if not ok:
+                        # a working copy is tested and, once accepted, stored into the state (`if check(&candidate) { *state = candidate }`)
+                        vt = _payload_free(strip_clone(fn.arg_terms(t, 1, bi)))
+                        for b2, blk2 in enumerate(fn.blocks):
+                            for s2, st2 in enumerate(blk2['stmts']):
+                                if st2['k'] == 'assign' and st2['place']['l'] == 2 and st2['place']['p'] == ['deref'] and \
+                                        vt and vt <= _payload_free(strip_clone(fn.rvalue_terms(st2['rv'], (b2, s2)))):
+                                    ok = True
                     r_enf.inst('%s: early-return test is made on %s' % (eb.path, fmt_terms(idt)[:60]), ok=ok, site=eb.loc(bi))
                     if not ok:
                         r_enf.violations.append(Violation(
@@ -238,6 +246,108 @@ def run(ctx, tier):
     r_acc = _accept(ctx, prim)
     _accept_cone(ctx, prim, r_acc)
     return [r_lost, r_same, r_range, r_enf, r_canon, r_acc]
+
+
+def _accepted_before(fn, block, vals, centre, radius, is_state):
+    """`vals` (the terms of a value about to be stored into the state) is the same value - same definition sites - as the
+    argument of a bounds check whose accepting edge dominates `block`"""
+    from ..core import DISTANCE
+    want = _payload_free(strip_clone(vals))
+    if not want:
+        return False
+
+    def same(ts):
+        return _payload_free(strip_clone(ts)) == want
+    te, _fe, _sb = fn.bool_edges(lambda m: m[0] == 'call' and m[1] == SS + 'satisfies_bounds' and len(m[2]) == 2 and same(m[2][1]))
+    edges = set(te)
+
+    def dist_cx(ts):
+        return bool(ts) and all(d[0] == 'call' and (d[1] == DISTANCE or d[1].endswith('::distance')) and len(d[2]) == 3 and
+                                ((centre(d[2][1]) and same(d[2][2])) or (centre(d[2][2]) and same(d[2][1]))) for d in ts)
+    t2, _f2, _s2 = fn.bool_edges(lambda m: m[0] == 'binop' and ((m[1] == 'Le' and dist_cx(m[2]) and radius(m[3])) or
+                                                               (m[1] == 'Ge' and radius(m[2]) and dist_cx(m[3]))))
+    edges |= set(t2)
+    if not edges:
+        return False
+    if fn.dominated_by_edges(block, edges):
+        return True
+    # handed on inside an Option: `block` lies behind the Some edge of a match on an Option local whose every `Some(..)`
+    # literal was built behind the accepting edge (`if check(&c) { return Some(c) } .. None` + `match r { Some(p) => *state = p, .. }`)
+    for sb in range(fn.nb):
+        blk = fn.blocks[sb]
+        t = blk['term']
+        if blk['cleanup'] or t['k'] != 'switch':
+            continue
+        d = t['discr'].get('copy') or t['discr'].get('move')
+        if d is None or d['p']:
+            continue
+        dl = None
+        for st in blk['stmts']:
+            if st['k'] == 'assign' and st['place'] == {'l': d['l'], 'p': []} and st['rv']['k'] == 'discr':
+                dl = st['rv']['place']
+        if dl is None or dl['p']:
+            continue
+        tm = {str(v): tg for v, tg in t['targets']}
+        some_t = tm.get('1')
+        if some_t is None or not fn.dominated_by_edges(block, {(sb, some_t)}):
+            continue
+        somes = []
+        ok = True
+        todo, seen_l = [dl['l']], set()
+        while todo and ok:
+            loc = todo.pop()
+            if loc in seen_l:
+                continue
+            seen_l.add(loc)
+            for b2, blk2 in enumerate(fn.blocks):
+                if blk2['cleanup']:
+                    continue
+                for st2 in blk2['stmts']:
+                    if st2['k'] == 'assign' and st2['place'] == {'l': loc, 'p': []}:
+                        rv = st2['rv']
+                        if rv['k'] == 'agg' and rv.get('variant_name') == 'Some':
+                            somes.append(b2)
+                        elif rv['k'] == 'agg' and rv.get('variant_name') == 'None':
+                            pass
+                        elif rv['k'] == 'use' and ('move' in rv['op'] or 'copy' in rv['op']) and not (rv['op'].get('move') or rv['op'].get('copy'))['p'] \
+                                and len(seen_l) < 5:
+                            todo.append((rv['op'].get('move') or rv['op'].get('copy'))['l'])     # handed on whole: `_13 = move _19`
+                        else:
+                            ok = False
+                t2_ = blk2['term']
+                if t2_['k'] == 'call' and t2_['dest'] == {'l': loc, 'p': []}:
+                    ok = False
+        if ok and somes and all(fn.dominated_by_edges(b2, edges) for b2 in somes):
+            return True
+    return False
+
+
+def _each_def_fine(fn, op, point, centre, radius, is_state):
+    """every reaching definition of the stored value is the stored centre or a value the bounds check accepted before it was
+    handed on (`*state = match project(..) { Some(p) => p, None => centre.clone() }`)"""
+    try:
+        defs = fn.split_defs(op, point)
+    except Exception:       # noqa
+        return False
+    if len(defs) < 2:
+        return False
+    for (db, _di, ts) in defs:
+        if centre(ts):
+            continue
+        if _accepted_before(fn, db, ts, centre, radius, is_state):
+            continue
+        return False
+    return True
+
+
+def _payload_free(ts):
+    """terms with `unwrap` of an Option / Result literal payload looked through (Some(x) handed back and unwrapped is x)"""
+    out = set()
+    for n in ts:
+        while n[0] == 'unwrap' and len(n[1]) == 1:
+            n = next(iter(n[1]))
+        out.add(n)
+    return frozenset(out)
 
 
 def _accept_cone(ctx, prim, r):
@@ -281,6 +391,10 @@ def _accept_cone(ctx, prim, r):
                     vals = fn.rvalue_terms(st['rv'], (bi, si))
                     if len(st['place']['p']) == 1 and centre(vals):
                         centre_stores.add(bi)
+                    elif len(st['place']['p']) == 1 and _accepted_before(fn, bi, vals, centre, radius, is_state):
+                        pass        # the very value was accepted by the bounds check before it is stored (checked on a working copy)
+                    elif len(st['place']['p']) == 1 and st['rv']['k'] == 'use' and _each_def_fine(fn, st['rv']['op'], (bi, si), centre, radius, is_state):
+                        centre_stores.add(bi)   # every reaching definition is the centre or an accepted working copy
                     else:
                         writes.append((bi, si))
             t = blk['term']
@@ -288,7 +402,9 @@ def _accept_cone(ctx, prim, r):
                 for j, a in enumerate(t['args']):
                     pl = a.get('move') or a.get('copy')
                     if pl is not None and not pl['p'] and eb.local_ty(pl['l']).startswith('&mut ') and j > 0:
-                        if is_state(fn.arg_terms(t, j, bi)) and t['func'].get('path') != SS + 'satisfies_bounds':
+                        root = fn.borrow_root(pl['l'])
+                        on_state = pl['l'] == 2 or (root is not None and root[0] == 2)
+                        if on_state and is_state(fn.arg_terms(t, j, bi)) and t['func'].get('path') != SS + 'satisfies_bounds':
                             writes.append((bi, fn.nstmts(bi)))
         rets = set(fn.return_blocks())
         probs = []
@@ -335,10 +451,15 @@ def _project(ctx, prim, r_enf):
             if not centre(a_from) or not state(a_to):
                 probs.append('the projection interpolates from %s to %s, not from the stored centre to the state' % (fmt_terms(a_from)[:40], fmt_terms(a_to)[:40]))
                 continue
+            def projected(ts, _site=(fn.path, bi)):
+                # the output of this very projection (a working copy the interpolation writes, possibly carried round the loop)
+                return bool(ts) and all((q[0] == 'out' and q[1] == INTERPOLATE and q[4] == _site) or q[0] == 'rec' for q in strip_clone(ts))
+
             def ratio(n):
                 return n[0] == 'binop' and n[1] == 'Div' and radius(n[2]) and bool(n[3]) and all(
                     d[0] == 'call' and (d[1] == DISTANCE or d[1].endswith('::distance')) and len(d[2]) == 3 and
-                    ((centre(d[2][1]) and state(d[2][2])) or (centre(d[2][2]) and state(d[2][1]))) for d in n[3])
+                    ((centre(d[2][1]) and (state(d[2][2]) or projected(d[2][2]))) or
+                     (centre(d[2][2]) and (state(d[2][1]) or projected(d[2][1])))) for d in n[3])
 
             def shrinks(n, depth=0):
                 # a correction of the parameter: a product of the parameter carried round the loop, further ratios
@@ -348,10 +469,8 @@ def _project(ctx, prim, r_enf):
                 if n[0] == 'rec' or ratio(n):
                     return True
                 if n[0] == 'const':
-                    try:
-                        return 0.0 < float(n[1]) <= 1.0
-                    except (TypeError, ValueError):
-                        return False
+                    c = const_float(T(n))
+                    return c is not None and 0.0 < c <= 1.0
                 if n[0] == 'binop' and n[1] == 'Mul':
                     return all(bool(side) and all(shrinks(m, depth + 1) for m in side) for side in (n[2], n[3]))
                 if n[0] == 'binop' and n[1] == 'Sub':
@@ -902,8 +1021,8 @@ def _accept(ctx, prim):
                 rd = list(bound_reads(T(n)))
                 if n[0] == 'field' and len(rd) == 1 and rd[0][0] == n and rd[0][1] is None:
                     left.append(('lower' if rd[0][2] == '0' else 'upper', b))
-                elif f is None:
-                    # whole-state canonicalisation: what it stores is left behind only through the accepting edge of the
+                elif f is None or True:
+                    # canonicalisation (of the whole state, or of its angle field): what it stores is left behind only through the accepting edge of the
                     # bounds check made on the state afterwards (canonicalising *after* the test leaves a value no test
                     # has seen: wrapping is not exact and maps +pi to -pi)
                     te, _fe, _sb = fe.bool_edges(lambda m: m[0] == 'call' and m[1] == SS + 'satisfies_bounds' and len(m[2]) == 2 and
